@@ -468,6 +468,25 @@ def m_iter_chain(ex, callee, args, ret_ty, frame):
     return VIter(VSeq("?", len(items), items, ex.new_vid()), 0, None, "owned")
 
 
+def m_iter_all_any(ex, callee, args, ret_ty, frame):
+    """Iterator::all / Iterator::any with a closure whose MIR is in the dump: items are taken one by one
+    through `next`, the closure runs on each, evaluation stops at the first deciding item"""
+    want_all = "::all::<" in callee
+    while True:
+        nx = m_iter_next(ex, callee, [args[0]], "Option<?>", frame)
+        if nx is NOT_HANDLED:
+            return NOT_HANDLED
+        if adt_variant(ex, nx, "all/any next") == 0:
+            return VBool(want_all)
+        item = ex.adt_fields(nx, 1)[0]
+        r = ex.call_closure(args[1], [item])
+        if r is None or not isinstance(r, VBool):
+            raise Unsupported("all/any over a closure whose MIR is not in the dump")
+        ok = r.b if not isinstance(r.b, bool) else z3.BoolVal(r.b)
+        if ex.branch_bool(ok, "all/any closure") != want_all:
+            return VBool(not want_all)
+
+
 def m_iter_unzip(ex, callee, args, ret_ty, frame):
     """Iterator::unzip over pairs: two vectors with the first / second components in order"""
     items = drain(ex, args[0], frame)
@@ -772,6 +791,7 @@ BUILTIN = [
     (r"^<Vec<.*> as Extend<.*>>::extend::<", m_vec_extend),
     (r"^<.+ as Iterator>::collect::<Vec<.*>>$", m_collect_vec),
     (r"^<.+ as Iterator>::unzip::<", m_iter_unzip),
+    (r"^<.+ as Iterator>::(all|any)::<", m_iter_all_any),
     (r"^<.+ as Iterator>::flatten$", m_iter_flatten),
     (r"^<.+ as Iterator>::collect::<[A-Z]\w*>$", m_collect_any),
     (r"^HashSet(::)?(<.*>)?::new$", m_set_new),
